@@ -443,7 +443,9 @@ func TestC20(t *testing.T) {
 		}
 	})
 
-	pool := []string{"a", "b", "tenant-1", "Z9", ".", "..", "...", "", strings.Repeat("x", 150), strings.Repeat("x", 151), "a/b", "a b", "a:k=v", "a:k=v:z=1", "b:bad", "a:", "tenant-1:x=y", "é", "a\x00", "(ok)", "it's", "star*", "a=b", "a|", "!"}
+	pool := []string{"a", "b", "tenant-1", "Z9", ".", "..", "...", "", strings.Repeat("x", 150), strings.Repeat("x", 151), "a/b", "a b", "a:k=v", "a:k=v:z=1", "b:bad", "a:", "tenant-1:x=y", "é", "a\x00", "(ok)", "it's", "star*", "a=b", "a|", "!",
+		// well-formed multi-byte runes whose low byte looks harmless (U+0161, Cyrillic, U+012E) and runes in the middle
+		"\u0161", "\u0430\u0431\u0432", "\u0441", "a\u012eb", "tenant\u0441", "\u4e2d\u6587", "x\U0001F600"}
 	run.ForEach("lists", vt.N(30000, 600000), func(c vt.CaseID, rng *rand.Rand, s *vt.Slot) {
 		n := rng.IntN(6)
 		var parts []string
